@@ -402,6 +402,62 @@ pub fn shard_run(tier: &str, seed: u64, replay_case: Option<usize>, shard: Shard
             }
         }
     }
+    // ---- two clients whose chains meet in one version id V (B's chain starts at A's version V):
+    // both hold a version whose parent is V and both store a snapshot for V; each must get its own bytes
+    if replay_case.is_none() && shard.k == (8 % shard.n) {
+        for kind in [Kind::MEM_LIB, Kind::SQL_LIB, Kind::MEM_HTTP, Kind::SQL_HTTP] {
+            for (i, (na, nb)) in [(3000usize, 70_000usize), (5, 5), (4097, 4097), (300_000, 17)].iter().enumerate() {
+                let mut subj = match Subject::new(kind, Config::default()) {
+                    Ok(s) => s,
+                    Err(e) => {
+                        out.errors.push(format!("{e:#}"));
+                        continue;
+                    }
+                };
+                let (a, b) = (Uuid::new_v4(), Uuid::new_v4());
+                let pay = |n: usize, tag: u64| PaySpec::new(n, ((i as u64 + tag) % PAY_CLASSES as u64) as u8, seed ^ tag << 7 ^ i as u64).bytes();
+                let (va1, va2, vb1, sa, sb) = (pay(*na, 1), pay(*na, 2), pay(*nb, 3), pay(*na, 4), pay(*nb, 5));
+                let Resp::AddOk { vid: v, .. } = subj.exec(a, &Req::AddVersion { parent: Uuid::nil(), data: va1.clone() }) else { continue };
+                let ra2 = subj.exec(a, &Req::AddVersion { parent: v, data: va2.clone() });
+                let rb1 = subj.exec(b, &Req::AddVersion { parent: v, data: vb1.clone() });
+                let rsa = subj.exec(a, &Req::AddSnapshot { vid: v, data: sa.clone() });
+                let rsb = subj.exec(b, &Req::AddSnapshot { vid: v, data: sb.clone() });
+                cov.evaluations += 5;
+                cov.hit(format!("shared-version-id|{}", kind.name()));
+                let checks: Vec<(&str, Uuid, Req, &Vec<u8>)> = vec![
+                    ("A's child of V", a, Req::GetChild { parent: v }, &va2),
+                    ("B's child of V", b, Req::GetChild { parent: v }, &vb1),
+                    ("A's snapshot for V", a, Req::GetSnapshot, &sa),
+                    ("B's snapshot for V", b, Req::GetSnapshot, &sb),
+                ];
+                if !matches!((&ra2, &rb1, &rsa, &rsb), (Resp::AddOk { .. }, Resp::AddOk { .. }, Resp::SnapOk, Resp::SnapOk)) {
+                    continue; // acceptance is not this property's business
+                }
+                for (what, c, req, want) in checks {
+                    let got = subj.exec(c, &req);
+                    let ok = match &got {
+                        Resp::Found { data, parent, .. } => data == want && *parent == v,
+                        Resp::Snap { data, vid } => data == want && *vid == v,
+                        _ => false,
+                    };
+                    if !ok {
+                        let desc = match &got {
+                            Resp::Found { data, .. } | Resp::Snap { data, .. } => format!("{} bytes returned for {} uploaded, first difference at {:?}", data.len(), want.len(), first_diff(data, want)),
+                            o => o.short(),
+                        };
+                        out.found.push(Found {
+                            property: "C06".into(),
+                            signature: "C06:shared version id".into(),
+                            msg: format!("[{}] two clients whose chains meet in version {v} (both hold a child of it and a snapshot for it): {what} is served as {desc}", kind.name()),
+                            replay: json!({"origin": "c06-shared-id", "case": i}),
+                        });
+                        out.cov = cov;
+                        return out;
+                    }
+                }
+            }
+        }
+    }
     // ---- several uploads and downloads on ONE connection (keep-alive, and pipelined: all requests
     // written before the first response is read); chunked and Content-Length bodies alternate
     if replay_case.is_none() && shard.k == (7 % shard.n) {
@@ -516,13 +572,13 @@ pub fn finalize(out: ShardOut, is_replay: bool) -> CheckResult {
     let coverage = json!({
         "evaluations": cov.evaluations,
         "distinct_nontrivial": cov.situations.len(),
-        "rule": "uploads of versions and snapshots: lengths 1,2,3, powers of two +-1, every 9th (quick) / every (thorough) length in the page-overflow neighbourhood 3850..4250, 64 KiB / 128 KiB / 1 MiB +-1, random lengths, 16 MiB (100 MiB -1 / exactly 100 MiB in thorough) x 10 byte classes (zeros, 0xFF, random, digits, numeric-looking text, valid and invalid UTF-8, NUL/CRLF runs, chunk-framing look-alikes) x chunkings (one chunk, 1+rest, rest+1, 3 and 5 chunks, empty chunks around, one byte per chunk, 4095/4096/4097/65536 boundaries, powers of two, random partitions) through the library, the in-process HTTP service (exact chunk delivery), an in-process HttpServer over a real socket (chunked transfer encoding / Content-Length in flushed segments) and the real executable with SQLite; each upload is read back through the same path and compared byte for byte together with its ids; chains start from nil and from non-nil parents; plus pairs of uploads that overlap on a 1- and a 2-worker server (one connection sends half of its body, the other uploads completely in three chunks, the first finishes); uploads that stall for 10.5 s in mid-body; and several uploads followed by their downloads on ONE connection (keep-alive, and pipelined with all requests written before the first response is read; chunked and Content-Length bodies alternating; 1- and 3-worker servers). distinct_nontrivial = distinct (path, kind, byte class, chunking family, length class).",
+        "rule": "uploads of versions and snapshots: lengths 1,2,3, powers of two +-1, every 9th (quick) / every (thorough) length in the page-overflow neighbourhood 3850..4250, 64 KiB / 128 KiB / 1 MiB +-1, random lengths, 16 MiB (100 MiB -1 / exactly 100 MiB in thorough) x 13 byte classes (zeros, 0xFF, random, digits, numeric-looking text, valid and invalid UTF-8, NUL/CRLF runs, chunk-framing look-alikes, payloads that are themselves complete zlib streams / gzip members, payloads starting with well-known container magic) x chunkings (one chunk, 1+rest, rest+1, 3 and 5 chunks, empty chunks around, one byte per chunk, 4095/4096/4097/65536 boundaries, powers of two, random partitions) through the library, the in-process HTTP service (exact chunk delivery), an in-process HttpServer over a real socket (chunked transfer encoding / Content-Length in flushed segments) and the real executable with SQLite; each upload is read back through the same path and compared byte for byte together with its ids; chains start from nil and from non-nil parents; plus pairs of uploads that overlap on a 1- and a 2-worker server (one connection sends half of its body, the other uploads completely in three chunks, the first finishes); uploads that stall for 10.5 s in mid-body; and several uploads followed by their downloads on ONE connection (keep-alive, and pipelined with all requests written before the first response is read; chunked and Content-Length bodies alternating; 1- and 3-worker servers); and two clients whose chains meet in one version id, each holding a child of it and a snapshot for it. distinct_nontrivial = distinct (path, kind, byte class, chunking family, length class).",
         "samples": cov.samples,
         "uploads": out.executed,
         "situations_top": top.iter().take(40).map(|(k, v)| json!({"situation": k, "n": v})).collect::<Vec<_>>(),
         "connection_level_situations": cov.situations.iter().filter(|(k, _)| k.starts_with("one-connection|") || k.starts_with("interleaved-uploads|") || k.starts_with("stalled-upload|")).map(|(k, v)| json!({"situation": k, "n": v})).collect::<Vec<_>>(),
     });
-    let required = ["stalled-upload|", "interleaved-uploads|workers=1", "one-connection|pipelined", "one-connection|keep-alive", "Lib(Sqlite)|", "Http(Mem)|", "Http(Sqlite)|", "SocketMem|", "SocketBinary|", "chunking=five", "chunking=empty", "len~overflow-window", "len~big", "class=invalid-utf8", "class=numeric-text", "|snapshot|"];
+    let required = ["stalled-upload|", "interleaved-uploads|workers=1", "one-connection|pipelined", "one-connection|keep-alive", "shared-version-id|", "class=zlib-stream", "class=gzip-member", "Lib(Sqlite)|", "Http(Mem)|", "Http(Sqlite)|", "SocketMem|", "SocketBinary|", "chunking=five", "chunking=empty", "len~overflow-window", "len~big", "class=invalid-utf8", "class=numeric-text", "|snapshot|"];
     let verdict = if !out.found.is_empty() {
         Verdict::Violated(out.found)
     } else if !out.errors.is_empty() {
